@@ -193,7 +193,10 @@ def replay_in_fresh_process(prop_id, path, kind):
     env = dict(os.environ)
     p = subprocess.run([sys.executable, "-m", "verif_sim.main", prop_id, "--replay", path], env=env,
                        capture_output=True, text=True, timeout=600, cwd=base.VERIF_DIR)
-    ok = p.returncode == 1 and f"VIOLATION property={prop_id}" in p.stdout and f"kind={kind}" in p.stdout
+    exact = p.returncode == 1 and f"VIOLATION property={prop_id}" in p.stdout and f"kind={kind}" in p.stdout
+    # a replay that fails with another violation kind of the same property is still a reproduced violation
+    # (reported under the kind seen in the replay); anything else is "did not reproduce"
+    ok = p.returncode == 1 and f"VIOLATION property={prop_id}" in p.stdout
     return ok, p.stdout[-2000:] + p.stderr[-2000:]
 
 
@@ -370,6 +373,11 @@ def run_check(prop_id, tier, verif_seed, budget_s=None, workers=None, max_runs=N
             path = write_replay(prop_id, small, vv[0], original=trace,
                                 name=f"{prop_id}-{verif_seed}-{r['i']}-{v['kind']}-{len(violations_reported)}.json")
             ok, txt = replay_in_fresh_process(prop_id, path, v["kind"])
+            if not ok and small is not trace:
+                # the minimised trace does not fail in a fresh process: fall back to the trace as generated
+                small, vv = trace, [v]
+                path = write_replay(prop_id, trace, v, name=f"{prop_id}-{verif_seed}-{r['i']}-{v['kind']}-{len(violations_reported)}.json")
+                ok, txt = replay_in_fresh_process(prop_id, path, v["kind"])
             if not ok:
                 harness_errors.append(f"violation {v['kind']} of run {r['i']} did not reproduce from {path} (flaky): {txt[-600:]}")
                 continue
